@@ -51,7 +51,14 @@ namespace occa {
         }
       }
       if (encoding & encodingType::R) {
-        out << 'R';
+        // Raw strings are not escaped, they need a delimiter
+        //   that doesn't close the string inside the value
+        std::string delimiter;
+        while (value.find(")" + delimiter + "\"") != std::string::npos) {
+          delimiter += '_';
+        }
+        out << "R\"" << delimiter << '(' << value << ')' << delimiter << '"' << udf;
+        return;
       }
       out << '"' << escape(value, '"') << '"' << udf;
     }
